@@ -28,14 +28,17 @@ def datetime_isostring(date, keep_microseconds=False):
     date -- date object
     keep_microseconds -- include microseconds in iso
     """
-    utc_offset_sec = time.altzone if time.localtime().tm_isdst == 1 else time.timezone
-    utc_offset = datetime.timedelta(seconds=-utc_offset_sec)
-
     if keep_microseconds:
         date_to_format = date
     else:
         date_to_format = date.replace(microsecond=0)
 
+    if date_to_format.tzinfo is not None:
+        return date_to_format.isoformat()
+
+    # a naive date is a local time: use the utc offset that is in force at that time (which differs from the
+    # current offset if a daylight saving switch lies between the date and now)
+    utc_offset = date_to_format.astimezone().utcoffset()
     return date_to_format.replace(tzinfo=datetime.timezone(offset=utc_offset)).isoformat()
 
 
